@@ -331,7 +331,21 @@ func (vc *VC) verifyFunction(fn *ssa.Function) (rep *FuncReport) {
 	if fc == nil {
 		fc = &FuncContract{Key: key, Fn: fn, Loops: map[int]*LoopContract{}}
 	}
-	vc.verifyRun(fn, fc, key, "", rep)
+	// the general (unconditional) run is skipped in a mode whose clauses all belong to scenarios
+	general := len(fc.Clauses) == 0
+	for _, c := range fc.Clauses {
+		if c.Case == "" {
+			general = true
+		}
+	}
+	for _, lc := range fc.Loops {
+		if len(lc.Invariants) > 0 || len(lc.Steps) > 0 {
+			general = true
+		}
+	}
+	if general {
+		vc.verifyRun(fn, fc, key, "", rep)
+	}
 	for _, cd := range fc.Cases {
 		if rep.Error != "" {
 			break
@@ -341,6 +355,16 @@ func (vc *VC) verifyFunction(fn *ssa.Function) (rep *FuncReport) {
 	for _, sc := range fc.Scenarios {
 		if rep.Error != "" {
 			break
+		}
+		// a scenario is run only in the modes that have clauses for it
+		has := false
+		for _, c := range fc.Clauses {
+			if c.Case == sc {
+				has = true
+			}
+		}
+		if !has {
+			continue
 		}
 		vc.verifyRun(fn, fc, key, sc, rep)
 	}
@@ -527,7 +551,7 @@ func (vc *VC) verifyRun(fn *ssa.Function, fc *FuncContract, key, caseName string
 			}
 			var conds []Term
 			for _, c := range fc.Clauses {
-				if c.Kind == "panics_when" {
+				if c.Kind == "panics_when" && (c.Case == "" || c.Case == caseName) {
 					conds = append(conds, vc.evalSpecTerm(pf, entry, c.Expr, nil))
 				}
 			}
